@@ -371,6 +371,53 @@ def evaluate(d):
     return cases, order, impl, sk, uniq, hist, nontrivial, stats
 
 
+def shrink_trace(ctx, fail, budget=40):
+    """Delta-debugging on the op list of a failing value-level trace: re-runs the real code on the
+    reduced history and keeps a reduction when the direct oracle still reports the same kind of failure."""
+    lines = fail["case"].get("cases_tsv", [])
+    if len(lines) < 3 or "\tTS\t" not in lines[0]:
+        return fail
+    cat = fail["what"].split(" (engine")[0].split("(")[0]
+    head, ops = lines[0], lines[1:]
+    runs = [0]
+
+    def still_fails(cand):
+        if runs[0] >= budget:
+            return None
+        runs[0] += 1
+        rf = os.path.join(ctx.run_dir, "shrink_cases.tsv")
+        with open(rf, "w") as f:
+            f.write(head + "\n")
+            for l in cand:
+                f.write(l + "\n")
+        d, err = run_impl(ctx, "shrink", None, rf)
+        if d is None:
+            return None
+        for f2 in evaluate(d)[4]:
+            if f2["what"].split(" (engine")[0].split("(")[0] == cat:
+                return f2
+        return None
+
+    best = fail
+    n = 2
+    while len(ops) >= 2 and runs[0] < budget:
+        chunk = max(1, len(ops) // n)
+        reduced = False
+        for i in range(0, len(ops), chunk):
+            cand = ops[:i] + ops[i + chunk:]
+            f2 = still_fails(cand)
+            if f2 is not None:
+                ops, best, reduced = cand, f2, True
+                n = max(n - 1, 2)
+                break
+        if not reduced:
+            if chunk == 1:
+                break
+            n = min(n * 2, len(ops))
+    best["what"] += " [history shrunk to %d ops in %d runs]" % (len(ops), runs[0])
+    return best
+
+
 def run(ctx):
     quick = ctx.tier == "quick"
     ok, out, _ = vlib.go_build("ckpt")
@@ -390,7 +437,7 @@ def run(ctx):
     if quick:
         args = "-seed %d -ndir 500 -nplan 200 -ntrace 3 -tracelen 45 -nfetch 0 -engines pebble,rocksdb,mem -k1 none" % ctx.seed
     else:
-        args = "-seed %d -ndir 6000 -nplan 1500 -ntrace 14 -tracelen 70 -nfetch 8 -engines pebble,rocksdb,mem -k1 pebble,rocksdb,mem -k1mb 48" % ctx.seed
+        args = "-seed %d -ndir 15000 -nplan 3000 -ntrace 30 -tracelen 80 -nfetch 6 -exh -engines pebble,rocksdb,mem -k1 pebble,rocksdb,mem -k1mb 48" % ctx.seed
     runs = []
     corpus = sorted(glob.glob(os.path.join(vlib.VERIF, "corpus", "C14", "*.tsv")))
     if ctx.replay:
@@ -415,6 +462,8 @@ def run(ctx):
         mism, cnt = vlib.diff_outputs(os.path.join(d, "impl.out"), os.path.join(d, "model.out"))
         cases, order, impl, sk, fails, hist, nontrivial, stats = evaluate(d)
         all_mism += [(m[0], m[1], m[2]) for m in mism]
+        if not ctx.replay:
+            fails = [shrink_trace(ctx, f) if k < 2 and f["name"].startswith("trace-") else f for k, f in enumerate(fails)]
         all_fail += fails
         total += cnt
         distinct |= nontrivial
@@ -422,6 +471,11 @@ def run(ctx):
             hist_all[k] = hist_all.get(k, 0) + v
         for k, v in stats.items():
             stats_all[k] = stats_all.get(k, 0) + v
+        try:
+            ncoll = open(os.path.join(d, "run.log"), errors="replace").read().count("sst number reused with other content")
+            stats_all["fetch_scenarios_with_sst_number_reuse"] = stats_all.get("fetch_scenarios_with_sst_number_reuse", 0) + ncoll
+        except OSError:
+            pass
         if sub == "fresh" or ctx.replay:
             byk = {}
             for cid in order:
